@@ -17,6 +17,8 @@ mod data_struct;
 mod encrypted_header;
 
 pub mod api;
+#[cfg(cosmian_cover_crypt_verif)]
+pub mod verif_sync;
 pub mod traits;
 
 pub use abe_policy::{AccessStructure, EncryptionHint, QualifiedAttribute};
